@@ -46,7 +46,7 @@ MODELS = {
                       # thorough: the quick pools with ALL bases (one- and two-record), two-pair maps and a follow-up add; the wide
                       # pools (Tier = "thorough") are used by the thorough-only instances of PLAN below (they multiply too fast otherwise)
                       "thorough": {"MaxBase": 2, "MaxFollow": 1, "MaxPairs": 2, "Tier": '"quick"', "BaseMode": '"all"'}},
-        "always": ["Inv_Struct"], "properties": ["P_C10"],
+        "always": ["Inv_Struct"], "properties": ["P_C10", "Prop_BridgeRepoint"],
     },
     "Remap": {
         "module": "mc/MC_Remap.tla", "spec": "MCSpec",
